@@ -264,7 +264,7 @@ def nullable_fill_sweep(ctx):
     for dt in ["nint32", "nfloat64", "nbool", "nutf8", "nuint8", "nint64"]:
         base = dt[1:]
         payload = {"bool": True, "utf8": "pq"}.get(base, 7 if "int" in base else 2.5)
-        npdt = str if base == "utf8" else base
+        npdt = None if base == "utf8" else base       # (dtype=str would truncate to one character)
         for null in (True, False):
             fills = {"masked-0d": np.ma.masked_array(np.array(payload, dtype=npdt), mask=null),
                      "ndonnx-0d": ndx.asarray(np.ma.masked_array(np.array(payload, dtype=npdt), mask=null))}
